@@ -402,7 +402,10 @@ def check(ctx, rep):
             rep.gap(key, b.where(), "no switch on the value's discriminant")
             continue
         pos, neg, dflt = r
-        if pos == {n} and not dflt:
+        cond = conditional_positive_arms(b, vnames) if value_switches(b) else []
+        if cond:
+            rep.bad("R-KINDS", "R-KINDS:" + key + ":unconditional", b.where(), "Value::is_%s is true for Value::%s only under a further condition on the payload: some values of that kind satisfy no kind predicate" % (n.lower(), "/".join(cond)))
+        elif pos == {n} and not dflt:
             rep.ok("R-KINDS", key, b.where(), "true exactly for Value::%s" % n)
         else:
             rep.bad("R-KINDS", "R-KINDS:" + key, b.where(), "Value::is_%s is true for %s%s, expected exactly {%s}" % (n.lower(), sorted(pos), " and by default" if dflt else "", n))
@@ -457,6 +460,33 @@ def check(ctx, rep):
             rep.ok("R-KINDS", key, b.where(), "yields a value exactly for Value::%s" % want)
         else:
             rep.bad("R-KINDS", "R-KINDS:" + key, b.where(), "HaystackDict::%s accepts %s%s, expected exactly {%s}" % (nm, sorted(pos), " and by default" if dflt else "", want))
+    # the named shortcuts of the dict: id() / ts() are the typed getters on the conventional tags; safe_id() hands out a *copy of the
+    # stored Ref* (or the default when there is none) - a Ref rebuilt from parts of it is a different value (the display name is a field)
+    from rules import defsrules as _DR
+
+    for b in prog.bodies.values():
+        im = b.rec.get("impl") or {}
+        if im.get("trait") != "haystack::val::dict::HaystackDict" or im.get("self_adt") != "haystack::val::dict::Dict" or b.rec["kind"] == "Closure":
+            continue
+        nm = b.rec.get("name")
+        if nm in ("id", "ts"):
+            want = {"id": "get_ref(_1*, conststr:id)", "ts": "get_date_time(_1*, conststr:mod)"}[nm]
+            ret = repr(G.describe_place(b, {"l": 0, "p": []}))
+            nget += 1
+            if ret.endswith("HaystackDict>::" + want):
+                rep.ok("R-KINDS", "dict-shortcut:%s" % nm, b.where(), "%s() = %s" % (nm, want))
+            else:
+                rep.bad("R-KINDS", "R-KINDS:dict-shortcut:%s" % nm, b.where(), "HaystackDict::%s returns %s, expected self.%s" % (nm, ret[:120], want))
+        elif nm == "safe_id":
+            nget += 1
+            cs = _DR._calls(prog, b)
+            makers = [c for c in cs if "val::reference::Ref" in c[2] and not c[2].endswith(("PartialEq>::eq", "Deref>::deref"))]
+            odd = [c for c in makers if not (c[2].endswith("Default>::default") or (c[2].endswith("Clone>::clone") and c[3] and re.fullmatch(r".*HaystackDict>::get_ref\(_1\*, conststr:id\) as Some\.0\**", c[3][0])))]
+            src = [c for c in cs if c[2].endswith("HaystackDict>::get_ref") and c[3][1:] == ["conststr:id"]]
+            if makers and not odd and len(src) == 1:
+                rep.ok("R-KINDS", "dict-shortcut:safe_id", b.where(), "a clone of the stored id Ref, or Ref::default()")
+            else:
+                rep.bad("R-KINDS", "R-KINDS:dict-shortcut:safe_id", b.where(), "HaystackDict::safe_id builds its result with %s instead of cloning the stored Ref: parts of the stored value (its display name) are lost" % ([c[2].split("::")[-1] + "(" + ", ".join(c[3])[:60] + ")" for c in odd] or "no Ref of the dict"))
     return len(vv), npred, nconv, nget
 
 
